@@ -94,8 +94,9 @@ claim('C18', 'argument-provenance (def-use) analysis of sampler entry points dow
       'endianness / shape / mixed-radix digit conversions, histograms, data frames, string forms, concatenation')
 
 # ---- rules added later (see DESIGN.md section 3 for the full list per property) -------------------------------------------
-more('C01', 'guard interpretation of the product-state SWAP shortcut on probe exponents',
-     'C01.d the relabelling shortcut is taken only for gates that are exactly SWAP')
+more('C01', 'guard interpretation of the product-state SWAP shortcut on probe exponents; position taint on the classical simulator basis list',
+     'C01.d the relabelling shortcut is taken only for gates that are exactly SWAP; C01.e code that special-cases controlled gates consults control_values; '
+     'C01.f every basis[k] of the classical simulator is indexed by a position its own qubits map to')
 more('C02', 'statement-order rule on the two recording paths, nested-mutation copy rule, interpretation of the Pauli-measurement decomposition over all masks',
      'C02.h confusion map applied before the invert mask on the fast path and the per-repetition path; C02.b2 the classical store copies its per-key lists; '
      'C02.i PauliMeasurementGate decomposes as V^-1 . measure . V with V P V^dag = Z (all masks, <=3 qubits)',
